@@ -55,6 +55,7 @@
 #include "status.h"
 #include "util.h"
 #include "version.h"
+#include "verif_hooks.h"
 
 using namespace std;
 
@@ -1827,7 +1828,45 @@ int ReadFlags(int* argc, char*** argv,
   return -1;
 }
 
+#ifdef NINJA_VERIF
+}  // namespace
+#include <fcntl.h>
+namespace {
+/// Writes every hook event as one JSON line to the file (or FIFO) named by
+/// the environment variable VERIF_TRACE.
+struct VerifFileSink : public VerifSink {
+  int fd_;
+  explicit VerifFileSink(int fd) : fd_(fd) {}
+  void Event(const char* name, const Edge* edge, const char* detail) override {
+    std::string line = std::string("{\"e\":\"H\",\"h\":\"") + name + "\",\"out\":\"";
+    if (edge && !edge->outputs_.empty()) {
+      for (char c : edge->outputs_[0]->path()) {
+        if (c == '"' || c == '\\') line.push_back('\\');
+        line.push_back(c);
+      }
+    }
+    line += "\",\"d\":\"";
+    line += detail;
+    line += "\"}\n";
+    ssize_t ignored = write(fd_, line.data(), line.size());
+    (void)ignored;
+  }
+};
+
+void VerifInstallFileSink() {
+  const char* path = getenv("VERIF_TRACE");
+  if (!path)
+    return;
+  int fd = open(path, O_WRONLY | O_APPEND | O_CREAT | O_CLOEXEC, 0644);
+  if (fd >= 0)
+    g_verif_sink = new VerifFileSink(fd);
+}
+#endif  // NINJA_VERIF
+
 NORETURN void real_main(int argc, char** argv) {
+#ifdef NINJA_VERIF
+  VerifInstallFileSink();
+#endif
   // Use exit() instead of return in this function to avoid potentially
   // expensive cleanup when destructing NinjaMain.
   BuildConfig config;
